@@ -26,6 +26,8 @@ type schedReader struct {
 	sched       []int
 	tick        int
 	errWithData bool
+	zeroFirst   bool // every delivery of data is preceded by one Read that returns (0, nil): "nothing happened"
+	zeroed      bool
 	stop        error
 	pos         int
 	reads       int
@@ -40,6 +42,11 @@ func (r *schedReader) Read(p []byte) (int, error) {
 	if len(p) == 0 {
 		return 0, nil
 	}
+	if r.zeroFirst && !r.zeroed {
+		r.zeroed = true
+		return 0, nil
+	}
+	r.zeroed = false
 	k := len(p)
 	if len(r.sched) > 0 {
 		c := r.sched[r.tick%len(r.sched)]
@@ -74,6 +81,8 @@ func parseReaderSpec(spec string, data []byte) *schedReader {
 			r.errWithData = true
 		case t == "f":
 			r.stop = errFault
+		case t == "z":
+			r.zeroFirst = true
 		case strings.HasPrefix(t, "s:"):
 			for _, x := range strings.Split(t[2:], ".") {
 				n, _ := strconv.Atoi(x)
@@ -222,9 +231,11 @@ func renderAccuState() string {
 
 type nullLogger struct{}
 
-func (nullLogger) Print(...interface{})          {}
-func (nullLogger) Printf(string, ...interface{}) {}
-func (nullLogger) Println(...interface{})        {}
+// the logger formats what it is given (as log.Logger does) and drops the text: String methods of the
+// library's internal types run, as they do under a real logger
+func (nullLogger) Print(v ...interface{})            { _ = fmt.Sprint(v...) }
+func (nullLogger) Printf(f string, v ...interface{}) { _ = fmt.Sprintf(f, v...) }
+func (nullLogger) Println(v ...interface{})          { _ = fmt.Sprintln(v...) }
 
 // The option values are built once per process and reused by every call, the way a program (and
 // the library's own test table) holds them: an option must not carry state from one call to the next.
@@ -271,12 +282,14 @@ func implDec(entry, opts, rspec, accu, hx string) (out string) {
 	switch entry {
 	case "decode":
 		f, err := fit.Decode(r, parseOpts(opts)...)
+		keep(f)
 		return fmt.Sprintf("%s %d %s %s", tag(err), r.pos, renderAccuState(), renderFile(f))
 	case "chained":
 		fs, err := fit.DecodeChained(r, parseOpts(opts)...)
 		parts := make([]string, len(fs))
 		for i, f := range fs {
 			parts[i] = renderFile(f)
+			keep(f)
 		}
 		d := "none"
 		if len(fs) > 0 {
@@ -300,12 +313,35 @@ func implDec(entry, opts, rspec, accu, hx string) (out string) {
 	return "bad-entry"
 }
 
+// Files returned during a history are kept with their dump at return time: a later call must not
+// change a File handed out earlier (nothing in it may alias decoder or package state).
+type keptFile struct {
+	f    *fit.File
+	dump string
+	call int
+}
+
+var (
+	keeping  bool
+	keptCall int
+	kept     []keptFile
+)
+
+func keep(f *fit.File) {
+	if keeping && f != nil {
+		kept = append(kept, keptFile{f, renderFile(f), keptCall})
+	}
+}
+
 func implLine(line string) string {
 	if strings.HasPrefix(line, "hist ") {
 		calls := strings.Split(line[5:], "^")
 		outs := make([]string, 0, len(calls))
 		accu := ""
-		for _, c := range calls {
+		keeping, kept = true, nil
+		defer func() { keeping, kept = false, nil }()
+		for ci, c := range calls {
+			keptCall = ci
 			toks := strings.Split(c, " ")
 			if accu != "" && toks[0] == "dec" && len(toks) >= 5 {
 				toks[4] = accu
@@ -318,6 +354,11 @@ func implLine(line string) string {
 				}
 			}
 			outs = append(outs, out)
+		}
+		for _, k := range kept {
+			if now := guarded(func() string { return renderFile(k.f) }); now != k.dump && k.call < len(outs) {
+				outs[k.call] += " CHANGED-AFTER-RETURN"
+			}
 		}
 		return strings.Join(outs, "^")
 	}
